@@ -9,7 +9,7 @@ class C20(core.Prop):
     correspondence = "IndiMessage.__eq__/__ne__ vs Msg.Equality.msg_eqb"
     uses_registry = True
     rule = ("pairs (a,b): a drawn from the grammar of all message kinds (0-5 children), b = every single-point "
-            "perturbation of a, an independently rebuilt copy (list/tuple children, int-typed attributes, "
+            "perturbation of a (incl. one character changed far inside or at the end of a long child value or attribute), an independently rebuilt copy (list/tuple children, int-typed attributes, "
             "re-parsed from its own serialisation), or an unrelated message; non-trivial = pair with at least "
             "one child or attribute involved, distinct by (canonical a, canonical b, construction route)")
     assumptions = ["attribute values are compared after str(), as to_dict does",
